@@ -258,7 +258,7 @@ Scan == \/ OpPlain \/ OpTilde \/ OpEscape \/ OpEscapeInSingle \/ OpEscapeAtEnd \
         \/ OpSingleInDouble
         \/ \E fn \in FnNames : OpCall(fn)
         \/ OpCallOpen \/ OpUnknownPercent \/ OpPercentInSingle \/ OpReturn \/ OpFinish
-Next == \/ \E s \in Starts(store) : OpStart(s[1], s[2])
+Next == \/ phase = "idle" /\ \E s \in Starts(store) : OpStart(s[1], s[2])
         \/ Scan
 Spec == Init /\ [][Next]_vars
 
